@@ -344,6 +344,11 @@ example : flowsOf (run (attached 4294967295 (.auto 2))
     (`no_stall` assumes every owed top-up is eventually issued). -/
 theorem topup_owed_until_queued : Amqp.Cancel.topupResetLast = true := by decide
 
+/-- generated obligations: what `attached` / `resume` (the count of the sender's attach, as it is) and
+    `dispose k` (k added to the processed count) assume of the source -/
+theorem source_attach_takes_the_senders_count : attachTakesTheSendersCount = true := by decide
+theorem source_batch_counts_every_delivery : batchCountsEveryDelivery = true := by decide
+
 /-- **resume_reports_the_new_count.** After a detach and a resumption (nothing queued) the flow that
     follows reports exactly the delivery-count the sender's new attach carried — not the old count,
     not the old count carried over on top of it — with the credit the receiver holds; the counts of
